@@ -405,6 +405,10 @@ func isEffectFree(name string) bool {
 		// timers: Stop/Reset report whether the timer was active (result unconstrained); AfterFunc/NewTimer
 		// register a callback or channel; none of them touches modelled state synchronously
 		"(*time.Timer).Stop", "(*time.Timer).Reset", "time.AfterFunc", "time.NewTimer",
+		// derived contexts: a fresh context (and cancel function); nothing the caller can see changes
+		"context.WithCancel", "context.WithTimeout", "context.WithDeadline", "context.WithValue", "context.WithoutCancel",
+		"(*encoding/base64.Encoding).DecodeString", "(*encoding/base64.Encoding).EncodeToString",
+		"google.golang.org/grpc/metadata.NewIncomingContext", "google.golang.org/grpc/status.FromError",
 	} {
 		if strings.HasPrefix(name, p) {
 			return true
